@@ -774,7 +774,7 @@ pub fn explore<D: Driver + 'static>(driver: D, mode: Mode, max_execs: u64, worke
                     // children: alternatives at every node beyond the prefix
                     if x.abort.is_none() || matches!(x.abort, Some(Abort::SleepBlocked) | Some(Abort::Deadlock(_))) {
                         let choices = x.choices();
-                        let mut pre = work.preemptions;
+                        let mut pre = 0usize; // preemptions among nodes before i (recounted from the start)
                         for i in 0..x.nodes.len() {
                             let node = &x.nodes[i];
                             let is_preempt = |alt: usize| matches!(node.prev, Some(p) if p != alt && node.enabled.contains(&p));
